@@ -9,6 +9,7 @@ package checks
 // the mutation's invalidation.
 
 import (
+	"bytes"
 	"fmt"
 	"sort"
 	"strings"
@@ -25,14 +26,14 @@ import (
 )
 
 type c29FillCase struct {
-	Reader    string   `json:"reader"`     // readdir readdirplus lookup_x lookup_m getattr_x lookup_sub
+	Reader    string   `json:"reader"`     // readdir readdirplus lookup_x lookup_m getattr_x lookup_sub readdir_sub read_x
 	ParkAfter int      `json:"park_after"` // the reader is parked after its ParkAfter-th backend call has returned
 	Mutator   string   `json:"mutator"`    // create_m remove_x rename_x_z rename_x_m mkdir_m write_x setsize_x symlink_m rmdir_sub create_in_sub
 	Cache     cacheCfg `json:"cache"`
 	Warm      bool     `json:"warm"` // look everything up once before (caches populated)
 }
 
-var c29Readers = []string{"readdir", "readdirplus", "lookup_x", "lookup_m", "getattr_x", "lookup_sub", "readdir_sub"}
+var c29Readers = []string{"readdir", "readdirplus", "lookup_x", "lookup_m", "getattr_x", "lookup_sub", "readdir_sub", "read_x", "read_x"}
 var c29Mutators = []string{"create_m", "remove_x", "rename_x_z", "rename_x_m", "mkdir_m", "write_x", "setsize_x", "symlink_m", "rmdir_sub", "create_in_sub"}
 
 func genC29Fill(t *rapid.T) c29FillCase {
@@ -98,6 +99,8 @@ func runC29Fill(tb stat.TB, c c29FillCase) {
 			}
 		})
 		done := make(chan struct{})
+		var readRes *nfsx.Res
+		preX, _, _ := v.PeekRead("/s/x", 0, 100)
 		armed.Store(true)
 		go func() {
 			defer close(done)
@@ -123,6 +126,8 @@ func runC29Fill(tb stat.TB, c c29FillCase) {
 				look(dir, "sub")
 			case "getattr_x":
 				s.nfs(nfsx.ProcGetattr, nfsx.ArgsFh(xfh))
+			case "read_x":
+				readRes = s.nfs(nfsx.ProcRead, nfsx.ArgsRead(xfh, 0, 100))
 			}
 		}()
 		select {
@@ -173,6 +178,20 @@ func runC29Fill(tb stat.TB, c c29FillCase) {
 		}
 		v.SetAfter(nil)
 
+		// ---- a READ that overlapped the mutation returns the file's bytes as they were before or after it, never a
+		// mixture the file never held (zero padding up to a size it no longer has, for instance)
+		if c.Reader == "read_x" && readRes != nil && readRes.Status == nfsx.OK && parkedOK {
+			postX, _, okX := v.PeekRead("/s/x", 0, 100)
+			if !okX {
+				postX = nil // x is gone (removed / renamed): only the old content can be explained
+			}
+			// (a READ that sized its buffer before the mutation and read after it may come back short: a prefix of
+			// either state is a state the file was in; bytes beyond what either state holds are not)
+			if !bytes.HasPrefix(preX, readRes.Data) && !(okX && bytes.HasPrefix(postX, readRes.Data)) {
+				stat.Violate(tb, id, check, "read-reflects-a-state-the-file-was-never-in", c, "READ of x parked after its backend call #%d while %s ran to completion returned %q; the file held %q before and %q after", c.ParkAfter, c.Mutator, readRes.Data, preX, postX)
+				return
+			}
+		}
 		// ---- both requests have finished: the server's answers must agree with the backend
 		what := fmt.Sprintf("%s parked after its backend call #%d while %s ran to completion (caches %+v, warm=%v)", c.Reader, c.ParkAfter, c.Mutator, c.Cache, c.Warm)
 		snap := v.Snapshot()
